@@ -413,6 +413,47 @@ func (m *collModel) config() *Config {
 	return c
 }
 
+// reducedConfig: the live registrations with the removed outputs taken out of the result lists of
+// partially removed multi-output registrations. nil when that cannot be expressed faithfully (options
+// that attach to a position in the result list, aliases).
+func (m *collModel) reducedConfig() *Config {
+	c := &Config{}
+	for _, r := range m.config().Regs {
+		live := map[int]bool{}
+		n := 0
+		for _, p := range m.order {
+			if p.Reg == r.ID {
+				live[p.OutIdx] = true
+				n++
+			}
+		}
+		if n == len(regIdents(r)) {
+			c.Regs = append(c.Regs, r)
+			continue
+		}
+		if r.Name != "" || r.Group != "" || len(r.As) > 0 || len(r.Outs) < 2 {
+			return nil
+		}
+		cp := *r
+		cp.Outs = nil
+		for i, o := range r.Outs {
+			if live[i] {
+				cp.Outs = append(cp.Outs, o)
+			}
+		}
+		if len(cp.Outs) == 0 {
+			return nil
+		}
+		c.Regs = append(c.Regs, &cp)
+	}
+	return c
+}
+
+func hasClassErr(err error, cls int) bool {
+	_, c := classify(err)
+	return hasClass(c, cls)
+}
+
 type descKey struct {
 	T     string
 	Key   string
@@ -441,7 +482,22 @@ func (m *collModel) descMultiset() map[descKey]int {
 	return out
 }
 
+// collOwnProp: the property this process checks (one property per process). A history goes on after a
+// violation that belongs to another property, so that the own property's rules further down the
+// history are still evaluated; it stops at the first violation of the own property.
+var collOwnProp string
+
+func stopOn(vs []Violation) bool {
+	for _, v := range vs {
+		if collOwnProp == "" || v.Prop == collOwnProp {
+			return true
+		}
+	}
+	return false
+}
+
 func (e *collEngine) Run(prop, tier string, idx int, tape *Tape) *RunOut {
+	collOwnProp = prop
 	c := decodeCollCase(tier, idx, tape)
 	return e.exec(c, tape)
 }
@@ -778,6 +834,15 @@ func runCollCase(c *collCase, tape *Tape, out *RunOut) []Violation {
 					vs = append(vs, Violation{Prop: "C08", Rule: "C08.found", Shape: "rebuild/partially-removed", Msg: fmt.Sprintf("%s: a required dependency of a still registered constructor is not registered but Build succeeded", when)})
 				}
 			}
+			if anyTouched(m) && err == nil || anyTouched(m) && !hasClassErr(err, ECircular) {
+				// ... and a dependency cycle that runs only through identities that are still registered
+				// (the removed outputs taken out of their constructors' result lists) must be reported
+				if rc := m.reducedConfig(); rc != nil {
+					if rm := buildModel(rc); rm.V.Cycle && !rm.V.Dup && !rm.V.Conflict && !rm.V.Missing {
+						vs = append(vs, Violation{Prop: "C05", Rule: "C05.build", Shape: "rebuild/partially-removed", Msg: fmt.Sprintf("%s: the identities that are still registered form a dependency cycle (registrations %v) but Build returned %v", when, keys(rm.V.CycleRegs), firstLine(err))})
+					}
+				}
+			}
 			if !anyTouched(m) {
 				// the verdict of every Build of the history is judged against the registry as it is now
 				_, bcls := classify(err)
@@ -845,9 +910,12 @@ func runCollCase(c *collCase, tape *Tape, out *RunOut) []Violation {
 			}
 			out.Reach["coll.resolve_after_edit"]++
 		}
-		if len(vs) > 0 {
+		if stopOn(vs) {
 			return vs
 		}
+	}
+	if len(vs) > 0 {
+		return vs
 	}
 	for _, bp := range provs {
 		bp.p.Close()
@@ -921,6 +989,7 @@ func (e *collEngine) runTapes(tier string, idx int, tapes [nStreams][]int32) (*R
 }
 
 func (e *collEngine) Replay(rf *ReplayFile) *RunOut {
+	collOwnProp = rf.Property
 	out, _ := e.runTapes(rf.Tier, rf.Run, mapToTapes(rf.Tapes))
 	return out
 }
